@@ -3,7 +3,7 @@ use verif_common::Rng;
 
 pub const C01_RULE: &str = "one scenario per tamper kind (honest advance, unsigned extra ref, moved ref, deleted signed ref, \
 corrupted signature, re-keyed signature, sigrefs naming another repository's identity root, server behind, diverged, unloadable \
-sigrefs commit, sigrefs ref missing, unsigned/moved namespace rad/id, rad/id without sigrefs for an unknown namespace, dropped \
+sigrefs commit, sigrefs ref missing, unsigned/moved/diverged namespace rad/id, rad/id without sigrefs for an unknown namespace, dropped \
 rad/ ref, new namespace, honestly deleted ref) x victim kind (delegate / non-delegate) x (pull / clone) x announced refs_at \
 (none / current tip / older tip / forged commit / blocked or own key / duplicate key), plus random combinations of two tampered \
 namespaces, scopes, block lists, delegate sets and reversed ls-refs order; executed on real git repositories through a real `git upload-pack`; \
@@ -67,6 +67,7 @@ pub fn tamper_kinds(k: usize, j: usize, d0: usize) -> Vec<(&'static str, String,
         ("new-namespace", format!("L.rmns.{k};S.commit.{k}.master;S.resign.{k}"), false),
         ("ref-deleted-honestly", format!("B.commit.{k}.feature;B.resign.{k};S.del.{k}.feature;S.resign.{k}"), true),
         ("radid-moved-signed", format!("S.commit.{k}.id;S.resign.{k}"), false),
+        ("radid-diverged", format!("S.commit.{k}.master;S.resign.{k};S.set.{k}.id.{k}.master"), false),
     ]
 }
 
@@ -133,6 +134,10 @@ pub fn c01_cases(rng: &mut Rng, quick: bool) -> Vec<String> {
                 let (ops2, ra) = older_refsat(victim, ops);
                 out.push(scenario(n, &d, t, local, false, "all", &[], &ra, &[ops2]));
             }
+            // the serving side lists its references in reverse name order
+            if !quick || i % 3 == 1 || i + 1 == kinds.len() {
+                out.push(scenario(n, &d, t, local, false, "all", &[], "-", &[format!("{ops};S.revorder")]));
+            }
         }
         for (_, extra, ra) in refsat_kinds(victim, other, local) {
             out.push(scenario(
@@ -197,6 +202,9 @@ pub fn c01_cases(rng: &mut Rng, quick: bool) -> Vec<String> {
             _ => "all".to_string(),
         };
         let blocked: Vec<usize> = if rng.chance(1, 5) { vec![rng.below(n as u64) as usize] } else { vec![] };
+        if rng.chance(1, 4) {
+            ops = format!("{ops};S.revorder");
+        }
         let mut refsat = "-".to_string();
         if !clone && rng.chance(1, 3) {
             let rk = refsat_kinds(v1, (v1 + 1) % n, local.min(n - 1));
